@@ -82,6 +82,8 @@ static void *client2(void *a){ struct item *its=0; (void)a; its=calloc((size_t)n
     else if(it->result!=(long)it->in.w[0]) fail("the result written by the item was not visible after the synchronous call returned",k,0,0); }
   dispatch_barrier_sync_f(CQ,0,nop); dispatch_sync_f(SQ,0,nop); return its; }
 // ---- group / semaphore / once edges
+static long *rg_slot;
+static void *rg_waiter(void *a){ dispatch_group_t g=a; if(dispatch_group_wait(g, DISPATCH_TIME_FOREVER)) return (void*)-1L; return (void*)*(volatile long*)rg_slot; }
 static void edges(int rounds){ dispatch_queue_t gq=dispatch_get_global_queue(0,0);
   for(int r=0;r<rounds && !viol;r++){
     // group: n items write plain slots; wait and a notify block read them
@@ -94,6 +96,17 @@ static void edges(int rounds){ dispatch_queue_t gq=dispatch_get_global_queue(0,0
     for(int w=0;w<5000 && !atomic_load(&noted);w++) usleep(200);
     if(!atomic_load(&noted)) fail("group notify block never ran",r,0,0);
     dispatch_release(g);
+    // a group that is REUSED across rounds (its generation advances), waited on by a timed wait that expires and then by two
+    // concurrent unbounded waits: whichever of them returns 0 must see the item's plain write
+    { static dispatch_group_t rg; static long rslot; if(!rg) rg=dispatch_group_create(); rslot=0; rg_slot=&rslot;
+      dispatch_group_async(rg, gq, ^{ usleep(300+(unsigned)(rnd()%500)); rslot=tag; });
+      if(dispatch_group_wait(rg, dispatch_time(DISPATCH_TIME_NOW,(int64_t)(20000+rnd()%60000)))==0 && rslot!=tag) fail("a timed dispatch_group_wait on a reused group returned 0 before the item's write was visible: round",r,0,0);
+      pthread_t wt; pthread_create(&wt,0,rg_waiter,(void*)rg);
+      if(rnd()%2) usleep(rnd()%100);
+      if(dispatch_group_wait(rg, DISPATCH_TIME_FOREVER)) fail("group wait FOREVER returned non-zero (reused group)",r,0,0);
+      if(rslot!=tag) fail("dispatch_group_wait on a reused group (waiters bit already set by another waiter) returned 0 before the item's write was visible: round",r,0,0);
+      void *seen; pthread_join(wt,&seen); if((long)seen!=tag) fail("a second concurrent dispatch_group_wait on a reused group returned before the item's write was visible: round/saw",r,(long)seen,0);
+      }
     // semaphore: producer writes plain, then signals
     static long box; dispatch_semaphore_t s=dispatch_semaphore_create(0); box=0;
     dispatch_async(gq, ^{ if(rnd()%2) usleep(rnd()%200); box=tag; dispatch_semaphore_signal(s); });
